@@ -916,11 +916,21 @@ type C19Conc struct {
 func genC19Conc(t *rapid.T) C19Conc {
 	c := C19Conc{Transport: rapid.SampledFrom([]string{"channel", "websocket", "http", "http"}).Draw(t, "transport")}
 	nw := rapid.IntRange(2, 8).Draw(t, "writers")
+	// now and then a crowd: a hundred goroutines write one small envelope each while the reader is busy elsewhere
+	// for a moment (goat writes from as many goroutines as there are callers)
+	crowd := rapid.IntRange(0, 9).Draw(t, "crowd") == 0
+	if crowd {
+		nw = rapid.SampledFrom([]int{70, 100, 160}).Draw(t, "crowd_writers")
+	}
 	for w := 0; w < nw; w++ {
 		var seq []RpcSpec
 		k := rapid.IntRange(1, 3).Draw(t, "k")
+		maxBody := 262144
+		if crowd {
+			k, maxBody = 1, 64
+		}
 		for j := 0; j < k; j++ {
-			s := genRpcSpec(t, 262144, true)
+			s := genRpcSpec(t, maxBody, true)
 			s.ID = uint64(w)<<32 | uint64(j)
 			seq = append(seq, s)
 		}
@@ -976,6 +986,9 @@ func execC19Conc(t *testing.T, c C19Conc) (v Verdict) {
 	go func() {
 		defer close(rdone)
 		for i := 0; i < total; i++ {
+			if i == 1 && len(c.Writers) > 32 {
+				time.Sleep(300 * time.Millisecond) // the application is busy; the crowd's writes pile up meanwhile
+			}
 			x, err := readEnd.Read(ctx)
 			if err != nil {
 				return
@@ -1064,7 +1077,7 @@ func execC19Conc(t *testing.T, c C19Conc) (v Verdict) {
 			v.failf("%s: %d envelopes read, %d written", c.Transport, len(got), total)
 		}
 	}
-	v.Info = kit.CaseInfo{Labels: []string{"conc." + c.Transport, fmt.Sprintf("conc.writers>=4=%v", len(c.Writers) >= 4)}, NonTrivial: true, Key: fmt.Sprintf("%+v", c),
+	v.Info = kit.CaseInfo{Labels: []string{"conc." + c.Transport, fmt.Sprintf("conc.writers>=4=%v", len(c.Writers) >= 4), fmt.Sprintf("conc.crowd=%v", len(c.Writers) > 32)}, NonTrivial: true, Key: fmt.Sprintf("%+v", c),
 		Sample: map[string]any{"transport": c.Transport, "writers": len(c.Writers), "envelopes": total}}
 	return
 }
